@@ -33,7 +33,7 @@ ASSUMPTIONS = ["delays and dt are decimal literals with at most 6 decimals (0.3,
                "population changes happen between steps and in the two round hooks only, never inside act",
                "order is checked only between events sent to the same agent in the same step and handled in the same step"]
 FAULT_KINDS = ["agent_deleted_with_events_in_flight", "reconfiguration_with_events_in_flight", "send_to_dead_id", "delayed_event"]
-PROBES = ["event_to_deleted_agent", "event_after_ids_shifted", "delayed_odd_wait", "non_multiple_delay", "two_events_same_agent_same_step",
+PROBES = ["sent_from_round_hook", "broadcast_event", "event_to_deleted_agent", "event_after_ids_shifted", "delayed_odd_wait", "non_multiple_delay", "two_events_same_agent_same_step",
           "delete_in_begin_hook_after_distribution", "decimal_dt_delay"]
 EXHAUSTIVE = {"quick": False, "thorough": False}
 
@@ -97,7 +97,19 @@ def generate(spec):
                 if rng.random() < 0.7:
                     frm, delay = sends[-1]["from"], sends[-1]["delay"] if sends[-1]["k"] == k else delay
             sends.append({"k": k, "from": frm, "uid": uid, "to": to, "delay": delay, "name": rng.choice(["ping", "pong"])})
-    return {"property": PROPERTY, "dt": dt, "steps": steps, "drive": drive, "init": init, "pop": pop, "sends": sends}
+    # events sent by the model itself from inside the round hooks, incl. broadcasts to all agents of a type
+    hook_sends = []
+    for k in range(1, steps + 1):
+        if rng.random() < 0.12:
+            uid += 1
+            where = rng.choice(["begin", "end"])
+            if rng.random() < 0.5:
+                hook_sends.append({"k": k, "where": where, "broadcast": rng.choice(["a", "b"]), "uid_base": uid,
+                                   "delay": rng.choice([None, None, round(dt * 2, 6)]), "name": "pong"})
+            else:
+                hook_sends.append({"k": k, "where": where, "uid": uid, "to": rng.randrange(0, next_id + 1),
+                                   "delay": rng.choice([None, round(dt, 6)]), "name": "ping"})
+    return {"property": PROPERTY, "dt": dt, "steps": steps, "drive": drive, "init": init, "pop": pop, "sends": sends, "hook_sends": hook_sends}
 
 
 def expected_wait(delay, dt):
@@ -139,6 +151,11 @@ def execute(case):
             driver_sends.setdefault(s["k"], []).append(s)
         else:
             w.sends.setdefault((s["k"], s["from"]), []).append(s)
+    for hs in case.get("hook_sends", ()):
+        w.hook_sends.setdefault((hs["k"], hs["where"]), []).append({x: y for x, y in hs.items() if x not in ("k", "where")})
+        res.probe("sent_from_round_hook")
+        if "broadcast" in hs:
+            res.probe("broadcast_event")
     raised = None
     ids_shifted = False
 
@@ -275,6 +292,11 @@ def execute(case):
 
 
 def shrink(case):
+    if case.get("hook_sends"):
+        for cand in shrink_list(case["hook_sends"]):
+            c = copy.deepcopy(case)
+            c["hook_sends"] = copy.deepcopy(cand)
+            yield c
     for cand in shrink_list(case["sends"]):
         c = copy.deepcopy(case)
         c["sends"] = copy.deepcopy(cand)
@@ -291,6 +313,7 @@ def shrink(case):
                 c["steps"] = st
                 c["pop"] = [p for p in c["pop"] if p["k"] <= st]
                 c["sends"] = [s for s in c["sends"] if s["k"] < st]
+                c["hook_sends"] = [s for s in c.get("hook_sends", []) if s["k"] <= st]
                 yield c
     for n, s in enumerate(case["sends"]):
         if s["from"] != "driver":
